@@ -492,6 +492,49 @@ def replay(rep):
     return 1 if a else 0
 
 
+def check_compat_poll():
+    """the thread-pool server decides per DESCRIPTOR from what rpyc.lib.compat.poll reports (the simulated socket layer
+    replaces that class, so it is exercised here on real sockets): a client that reset its connection, one with a request
+    pending and an idle one in the same poll() call - each descriptor's flags are its own"""
+    import socket as rs
+    import struct
+    import time as rt
+    from rpyc.lib.compat import poll as real_poll
+    viol = []
+    n = 0
+    for order in ((0, 1, 2), (1, 0, 2), (2, 0, 1)):
+        n += 1
+        pairs = [rs.socketpair() for _ in range(3)]
+        ls = rs.socket()
+        ls.bind(("127.0.0.1", 0))
+        ls.listen(4)
+        c = rs.socket()
+        c.connect(ls.getsockname())
+        srv_side, _ = ls.accept()
+        c.setsockopt(rs.SOL_SOCKET, rs.SO_LINGER, struct.pack("ii", 1, 0))
+        c.close()                                   # RST: error / hang-up on srv_side
+        pairs[1][1].send(b"request")                # readable on pairs[1][0]
+        rt.sleep(0.05)
+        socks = [srv_side, pairs[1][0], pairs[2][0]]
+        p = real_poll()
+        for i in order:
+            p.register(socks[i].fileno(), "reh")
+        got = dict(p.poll(0.5))
+        m_reset, m_data, m_idle = (got.get(s_.fileno(), "") for s_ in socks)
+        if not ("e" in m_reset or "h" in m_reset or "r" in m_reset):
+            viol.append(("compat-poll:reset-not-reported", repr(got)))
+        if "r" not in m_data or "e" in m_data or "h" in m_data or "n" in m_data:
+            viol.append(("compat-poll:flags-of-another-descriptor:client-with-a-pending-request=%s" % m_data, "registration order %r: %r" % (order, got)))
+        if m_idle:
+            viol.append(("compat-poll:idle-descriptor-reported=%s" % m_idle, "registration order %r: %r" % (order, got)))
+        for a, b in pairs:
+            a.close()
+            b.close()
+        srv_side.close()
+        ls.close()
+    return n, viol
+
+
 def main(tier, replay_obj=None):
     if replay_obj is not None:
         return replay(replay_obj)
@@ -502,6 +545,11 @@ def main(tier, replay_obj=None):
                         "<= %d preemption(s) at system-call granularity for %d representative scripts; states/transitions = distinct schedules "
                         "executed, evaluations = scenarios + schedules" % (len(scripts(tier)), 1, len(SCHED_SCRIPTS) if tier == "thorough" else 3))
     known = runner.load_known()
+    n_, viol_ = check_compat_poll()
+    res.evaluations += n_
+    res.parts["compat-poll-on-real-sockets"] = {"cases": n_}
+    for sig, text in viol_:
+        res.violation(sig, text, {"part": "compat-poll"})
     cases = default_cases(tier)
     outs = runner.pmap(run_default_chunk, [(c, tier) for c in chunks(cases, 6)])
     n = 0
